@@ -16,7 +16,8 @@ RULE = ("random context-free grammars (ambiguous ones, epsilon productions and e
         "random feature grammars (as in C18) x all words of length <=3/4, every tree validated against the skeleton "
         "grammar by the same checkers, membership / refusal against the instantiated grammar. Non-trivial: >=2 productions, one with a body of length >=2.")
 LEVEL = "proof"
-THEOREMS = ["Pfl.RecDescent.rdMatch_of_derives",
+THEOREMS = ["Pfl.LL1Lib.parse_total",
+            "Pfl.RecDescent.rdMatch_of_derives",
             "Pfl.RecDescent.parse_valid",
             "Pfl.RecDescent.parse_refuses_only_nonmembers",
             "Pfl.LL1Lib.parse_valid",
